@@ -219,7 +219,9 @@ def real_verdict(r):
     msgs = " | ".join(d["message"] for d in r.get("diagnostics") or [])
     if "cycle" in msgs:
         return 1
-    vis = any(x in msgs for x in ("not imported", "Unresolved", "not defined", "Unknown type constructor", "Unknown"))
+    # any diagnostic that is not about orphans or duplicates is about a name that cannot be seen (the wording varies with
+    # the position of the reference: "not imported", "Unresolved", "not found for member access", ...)
+    vis = any(not any(x in d["message"] for x in ("orphan rule", "already defined", "multiple packages")) for d in r.get("diagnostics") or [])
     if vis:
         return 2
     if "orphan rule" in msgs:
